@@ -2,6 +2,7 @@ package gltf
 
 import (
 	"image/color"
+	"reflect"
 
 	"github.com/EliCDavis/polyform/math/quaternion"
 	"github.com/EliCDavis/polyform/math/trs"
@@ -109,6 +110,10 @@ func (pm *PolyformMaterial) equal(other *PolyformMaterial) bool {
 	}
 
 	if pm.Name != other.Name {
+		return false
+	}
+	// extras are written into the material entry: materials that differ there are different entries
+	if len(pm.Extras) != len(other.Extras) || (len(pm.Extras) > 0 && !reflect.DeepEqual(pm.Extras, other.Extras)) {
 		return false
 	}
 	if !pm.PbrMetallicRoughness.equal(other.PbrMetallicRoughness) {
